@@ -1963,7 +1963,7 @@ pub fn run(ctx: &Ctx) -> Outcome {
     match ctx.part.as_deref() {
         Some("a") => out.merge(part_a(ctx)),
         Some("b") => out.merge(part_b(ctx)),
-        Some("c") => out.inconclusive("C19 part c (end-to-end through a Session) is not implemented in this module"),
+        Some("c") => out.merge(crate::checks::session_e2e::run_c19_c(ctx)),
         _ => {
             out.merge(part_a(ctx));
             let ex = out.exhaustive;
